@@ -3,7 +3,7 @@ ENGINES = [
      'kind_free_text': 'rustc_private driver dumping type-checked MIR (resolved callees, field names, evaluated constants, statics, promoted bodies) as JSON; injected with RUSTC_WORKSPACE_WRAPPER under cargo +nightly check on the current working tree'},
     {'name': 'E1 call graph + effects', 'path': 'analysis/facts.py analysis/effects.py', 'serves_properties': ['C16', 'C17'],
      'kind_free_text': 'whole-crate call graph (fn items as values and closures are edges, CHA for unresolved trait calls) and transitive effect sets'},
-    {'name': 'E3 bit-precise evaluator', 'path': 'analysis/bits.py', 'serves_properties': ['C12'],
+    {'name': 'E3 bit-precise evaluator', 'path': 'analysis/bits.py rules/layout.py', 'serves_properties': ['C04', 'C12'],
      'kind_free_text': 'integers as vectors of bits, each bit a truth table over <= 8 named input bits; byte arrays at constant offsets; loop-free code only'},
     {'name': 'E2 event automata', 'path': 'analysis/cfg.py analysis/pkt.py', 'serves_properties': ['C03', 'C08', 'C09', 'C10', 'C11'],
      'kind_free_text': 'forward data-flow of (automaton state, known enum variants) over the MIR CFG with per-callee summaries; keeps Ok/Err outcomes apart until the ? has branched'},
@@ -97,5 +97,16 @@ CHECKS['C09'] = {
              '(e) insert_rr / set_raw_name / delete resize the buffer or overwrite name bytes only on paths where maybe_compressed is known false (so no other record\'s pointer is invalidated). '
              'The splice geometry (C09.a) is decided by the E4 clause when built. Byte identity of all other records after an operation is a run-time equality and is NOT decided.'),
     'note': 'Structural clauses only. Trusted: tables/rfc_layout.json, rustc MIR, rule engines.',
+}
+CHECKS['C04'] = {
+    'engine': 'E3 bit-precise evaluator + layout tuples + E2', 'level': 'other',
+    'technique': 'bit-precise evaluation of the header getters, layout-tuple extraction for the OPT capture, role/value-flow tables, counting automaton',
+    'design_ref': 'DESIGN.md section 4, C04',
+    'text': ('Decides: (a) tid, flags, opcode, rcode, is_response and dnssec are bit-for-bit the specified functions of the header bytes and the optional extended flags (exact Boolean functions, all inputs); '
+             '(b) parse_opt reads max_payload/ext_rcode/version/flags/rdlength at the RFC 6891 offsets relative to the end of the OPT owner name, before the 10-byte skip, each summary fed by the getter of its role; '
+             'new() starts with 512 and None; parse() copies each summary into the same-role ParsedPacket field; (c) edns_count is zeroed and incremented exactly once per skipped option on every successful path; '
+             '(d) the three question getters read type/class at (0,2)/(2,2) behind a position derived from the wire length of the name, never from its decompressed length. '
+             'The three textual forms of the question name (loops over labels) are NOT decided.'),
+    'note': 'Trusted: tables/rfc_layout.json and the bit specs, analysis/bits.py, rustc MIR.',
 }
 NOT_APPLICABLE = {('C%02d' % i): PENDING for i in range(1, 19) if ('C%02d' % i) not in CHECKS}
